@@ -2,6 +2,7 @@ package scen
 
 import (
 	"bytes"
+	"context"
 	"encoding/json"
 	"fmt"
 	"net/http"
@@ -110,8 +111,11 @@ type countingQueryer struct {
 }
 
 func (cq *countingQueryer) Query(rs []*requests.Request) ([]map[string]interface{}, error) {
+	// (no call into the gateway's code while holding a harness lock: in the instrumented build it
+	// may stop at an interleaving point, and a goroutine blocked on a real mutex stalls the bubble)
+	url := cq.inner.URL()
 	cq.env.mu.Lock()
-	cq.env.calls = append(cq.env.calls, callRec{Tag: cq.tag, URL: cq.inner.URL(), N: len(rs), Reqs: rs})
+	cq.env.calls = append(cq.env.calls, callRec{Tag: cq.tag, URL: url, N: len(rs), Reqs: rs})
 	cq.env.mu.Unlock()
 	return cq.inner.Query(rs)
 }
@@ -122,15 +126,16 @@ func (cq *countingQueryer) URL() string { return cq.inner.URL() }
 
 type fedEnv struct {
 	// mu guards what planner / queryer wrappers touch from gateway goroutines
-	mu    sync.Mutex
-	s     *sched.Sim
-	res   *Result
-	w     *gql.World
-	net   *simnet.Net
-	cfg   gwConfig
-	gw    *pebbles.Gateway
-	execs []*gql.Exec
-	ref   *gql.Exec
+	mu      sync.Mutex
+	cancels map[string]context.CancelFunc
+	s       *sched.Sim
+	res     *Result
+	w       *gql.World
+	net     *simnet.Net
+	cfg     gwConfig
+	gw      *pebbles.Gateway
+	execs   []*gql.Exec
+	ref     *gql.Exec
 
 	effects  []gql.Effect
 	plans    map[string][]*planner.QueryPlan
@@ -412,7 +417,26 @@ func (e *fedEnv) postRaw(client string, body []byte, contentType string) *client
 		r.Header.Set("Content-Type", contentType)
 	}
 	r.Header.Set("X-Sim-Client", client)
-	return e.do(r)
+	// what net/http does: the request context ends when the client goes away
+	ctx, cancel := context.WithCancel(r.Context())
+	defer cancel()
+	e.mu.Lock()
+	if e.cancels == nil {
+		e.cancels = map[string]context.CancelFunc{}
+	}
+	e.cancels[client] = cancel
+	e.mu.Unlock()
+	return e.do(r.WithContext(ctx))
+}
+
+// clientGivesUp ends the context of the client's request in flight (the client disconnected).
+func (e *fedEnv) clientGivesUp(client string) {
+	e.mu.Lock()
+	c := e.cancels[client]
+	e.mu.Unlock()
+	if c != nil {
+		c()
+	}
 }
 
 func (e *fedEnv) do(r *http.Request) *clientResp {
